@@ -375,6 +375,48 @@ def mk_comp(d, it, items, conds=()):
     items = tuple(flat_items)
     if items == (("bv", d),) and not conds and it[0] in ("list", "comp"):
         return it  # the identity comprehension
+    # a comprehension over the items of a {key(y): value(y) for y in S if c(y)} is a comprehension over S
+    if it[0] == "mcall" and it[2] == "items" and not it[3] and _keyed_table(it[1]) is not None and not has(items, "idx") and not has(conds, "idx"):
+        D_ = _unwrap_seq(it[1])
+        K_, V_ = rename_binder(D_[3][0][1], D_[1], d), rename_binder(D_[3][0][2], D_[1], d)
+
+        def unitem(v):
+            if isinstance(v, tuple) and v:
+                if v[0] == "bv" and v[1] == d and len(v) > 2 and v[2] in (0, 1):
+                    out = K_ if v[2] == 0 else V_
+                    for i in v[3:]:
+                        out = mk_sub(out, C(i))
+                    return out
+                if v[0] in ("comp", "fold") and v[1] == d:
+                    return v
+                new = tuple(unitem(x) for x in v)
+                return renorm(new) if new != v else v
+            return v
+
+        if not any(b_ == ("bv", d) for b_ in find_all((items, conds), "bv")):
+            return mk_comp(d, D_[2], tuple(unitem(i) for i in items), tuple(rename_binder(c_, D_[1], d) for c_ in D_[4]) + tuple(unitem(c_) for c_ in conds))
+    # zip(chain([a], repeat(b)), X): the first element of X is paired with a, every other one with b
+    if it[0] == "call" and it[1] == "zip" and len(it[2]) == 2 and not it[3]:
+        K, X = it[2]
+        if K[0] == "call" and K[1].split(".")[-1] == "chain" and len(K[2]) == 2 and _unwrap_seq(K[2][0])[0] == "list" and len(_unwrap_seq(K[2][0])[1]) == 1 and K[2][1][0] == "call" and K[2][1][1].split(".")[-1] == "repeat" and len(K[2][1][2]) == 1:
+            a_, b_ = _unwrap_seq(K[2][0])[1][0], K[2][1][2][0]
+            key_ = mk_if(("first", d), a_, b_)
+
+            def unzip(v):
+                if isinstance(v, tuple) and v:
+                    if v[0] == "bv" and v[1] == d and len(v) > 2:
+                        if v[2] == 0:
+                            return key_ if len(v) == 3 else mk_sub(key_, C(v[3]))
+                        if v[2] == 1:
+                            return ("bv", d) + tuple(v[3:])
+                    if v[0] in ("comp", "fold") and v[1] == d:
+                        return v
+                    new = tuple(unzip(x) for x in v)
+                    return renorm(new) if new != v else v
+                return v
+
+            if not any(b == ("bv", d) for b in find_all((items, conds), "bv")):
+                return mk_comp(d, X, tuple(unzip(i) for i in items), tuple(unzip(c) for c in conds))
     if len(conds) > 1:
         allc = C(True)
         for c_ in conds:
@@ -706,7 +748,71 @@ def mk_and(a, b):
     return ("bool", "and", tuple(uniq))
 
 
+def _attr_path(t):
+    """('bv', d) .a.b.name -> (('bv', d), ('a', 'b', 'name')); None when t is not an attribute chain"""
+    path = []
+    while isinstance(t, tuple) and t and t[0] == "attr":
+        path.append(t[2])
+        t = t[1]
+    return (t, tuple(reversed(path))) if path else None
+
+
+def _keyed_table(b):
+    """b is {key(y): value(y) for y in <a collection of the model's atoms> if c(y)} with key(y) an attribute chain of y
+    that ends in `.name` -> (binder, key path, value, conditions); else None.  Names are unique within a model (C08), so
+    such a table is a function of the atom."""
+    b = _unwrap_seq(b)
+    if b[0] != "comp" or len(b[3]) != 1 or b[3][0][0] != "kv":
+        return None
+    kp = _attr_path(b[3][0][1])
+    if kp is None or kp[0] != ("bv", b[1]) or kp[1][-1] != "name":
+        return None
+    src = show(b[2])
+    if not any(w in src for w in ("sorted_assignments", ".states", ".state_derivatives", ".intermediates", ".parameters", ".assignments")):
+        return None
+    if has(b[3][0], "idx") or has(b[4], "idx"):
+        return None
+    return b[1], kp[1], b[3][0][2], b[4]
+
+
+def _lookup_in_table(key, table):
+    """key is <atom>.<same path>: (conditions at that atom, value at that atom), else None"""
+    kt = _keyed_table(table)
+    kp = _attr_path(key)
+    if kt is None or kp is None or kp[1] != kt[1] or kp[0][0] not in ("bv", "sym"):
+        return None
+    d2, _path, val, conds = kt
+    atom = kp[0]
+
+    def sub(v):
+        if isinstance(v, tuple) and v:
+            if v[0] == "bv" and v[1] == d2:
+                out = atom
+                for i in v[2:]:
+                    out = mk_sub(out, C(i))
+                return out
+            if v[0] in ("comp", "fold") and v[1] == d2:
+                return v
+            new = tuple(sub(x) for x in v)
+            return renorm(new) if new != v else v
+        return v
+
+    c_all = C(True)
+    for c_ in conds:
+        c_all = mk_and(c_all, sub(c_))
+    return c_all, sub(val)
+
+
+IMPORTED_MODULES: set = set()
+
+
 def mk_cmp(op, a, b):
+    if op in ("is", "is not", "==", "!=") and b == NONE and a[0] == "sym" and a[1] in IMPORTED_MODULES:
+        return C(op in ("is not", "!="))
+    if op in ("in", "not in"):
+        hit = _lookup_in_table(a, b)
+        if hit is not None:
+            return hit[0] if op == "in" else mk_not(hit[0])
     # == and != are symmetric: constants to the right, otherwise a fixed order
     if op in ("==", "!=") and a[0] != "enum" and b[0] != "enum":
         if (a[0] == "c" and b[0] != "c") or (a[0] != "c" and b[0] != "c" and repr(b) < repr(a) and not (has(a, "bv") or has(b, "bv") or has(a, "idx") or has(b, "idx"))):
@@ -807,6 +913,50 @@ def mk_cmp(op, a, b):
     return ("cmp", op, a, b)
 
 
+def format_value(recv, args, kw):
+    """str.format on a skeleton: named / positional fields are substituted, {{ }} unescaped."""
+    parts = []
+    auto = 0
+    for p in s_parts(recv):
+        if p[0] != "lit":
+            parts.append(p)
+            continue
+        try:
+            fields = list(string.Formatter().parse(p[1]))
+        except ValueError:
+            return unk("format string not parsed")
+        for lit, field, spec, conv in fields:
+            if lit:
+                parts.append(("lit", lit))
+            if field is None:
+                continue
+            if field == "":
+                field = str(auto)
+                auto += 1
+            head = field.split(".")[0].split("[")[0]
+            spread_at = next((i for i, a_ in enumerate(args) if a_[0] == "spread"), None)
+            if head.isdigit() and spread_at is not None and int(head) >= spread_at:
+                # "...".format(a, *seq): the fields from the star on are the elements of seq
+                if spread_at != len(args) - 1:
+                    return unk("format with a starred argument that is not the last one")
+                v = mk_sub(args[spread_at][1], C(int(head) - spread_at))
+            elif head.isdigit() and int(head) < len(args):
+                v = args[int(head)]
+            elif head in kw:
+                v = kw[head]
+            elif "**" in kw:
+                v = mk_sub(kw["**"], C(head))
+            else:
+                return unk(f"format field {field} not supplied")
+            if field != head:
+                v = ("call", "field", (v, C(field[len(head):])), ())
+            if spec or conv:
+                v = ("call", "format", (v, C(f"{conv or ''}:{spec or ''}")), ())
+            parts.append(("h", v))
+    return mk_s(parts)
+
+
+
 def renorm(v):
     """Re-apply the constructors after a substitution."""
     if not isinstance(v, tuple) or not v:
@@ -830,6 +980,13 @@ def renorm(v):
         return mk_vcall(v[1], v[2], v[3])
     if t == "attr" and v[1][0] in ("enum", "sym"):
         return _attr(v[1], v[2])
+    if t == "mcall" and v[2] == "format" and _is_str(v[1]) and (v[1][0] == "c" or v[1][0] == "s"):
+        return format_value(v[1], v[3], dict(v[4]))
+    if t == "bool" and v[1] in ("and", "or") and any(x[0] == "c" for x in v[2]):
+        out = C(v[1] == "and")
+        for x in v[2]:
+            out = mk_and(out, x) if v[1] == "and" else mk_or(out, x)
+        return out
     return v
 
 
@@ -850,6 +1007,9 @@ def mk_vcall(target, args, kwargs):
 
 
 def mk_sub(base, key):
+    hit_ = _lookup_in_table(key, base) if base[0] in ("comp", "call") else None
+    if hit_ is not None:
+        return hit_[1]  # the entry exists on the paths that get here (the membership test guards the lookup)
     # a table keyed by the members of an Enum class, subscripted with a member supplied by a rule
     if base[0] == "dict" and key[0] == "enum" and base[1] and all(isinstance(kv, tuple) and len(kv) == 2 and kv[0][0] == "sym" and kv[0][1].startswith(key[1] + ".") for kv in base[1]):
         for k_, v_ in base[1]:
@@ -1034,11 +1194,33 @@ class AV:
         if a.kwarg:
             env[a.kwarg.arg] = ("sym", "**" + a.kwarg.arg)
         env.update(args or {})
+        self._closure_bindings(f, env)
         fr = Frame(f, f.rel, env, 0, 0)
         val = self._finish(self._body(f.node.body, fr), fr)
         if want_env:
             return val, fr.env
         return val
+
+    def _closure_bindings(self, f: Func, env: dict):
+        # a nested function sees the simple bindings of the function around it (a table of handlers, a named constant):
+        # the literal dicts / tuples / constants that function assigns once at its top level
+        if "." in f.qualname:
+            outer = self.sm.funcs.get((f.rel, f.qualname.rsplit(".", 1)[0]))
+            if outer is not None:
+                ofr = Frame(outer, outer.rel, {x.arg: ("sym", x.arg) for x in outer.node.args.posonlyargs + outer.node.args.args + outer.node.args.kwonlyargs}, 0, 0)
+                # sibling closures are callable values (the function under analysis itself stays a name: its calls are
+                # the recursion the rules look for)
+                for st in outer.node.body:
+                    if isinstance(st, ast.FunctionDef) and st.name != f.name and st.name not in env:
+                        ofr.env[st.name] = ("fn", _Closure(st, ofr.env, outer.rel, outer))
+                for st in outer.node.body:
+                    if isinstance(st, ast.Assign) and len(st.targets) == 1 and isinstance(st.targets[0], ast.Name) and isinstance(st.value, (ast.Dict, ast.Tuple, ast.List, ast.Constant)) and st.targets[0].id not in env:
+                        n_binds = sum(1 for s2 in ast.walk(outer.node) if isinstance(s2, ast.Name) and isinstance(s2.ctx, ast.Store) and s2.id == st.targets[0].id)
+                        if n_binds == 1:
+                            try:
+                                env[st.targets[0].id] = self._ev(st.value, ofr)
+                            except Exception:
+                                pass
 
     def expr(self, src_or_node, env: dict | None = None, rel: str | None = None, func: Func | None = None):
         node = ast.parse(src_or_node, mode="eval").body if isinstance(src_or_node, str) else src_or_node
@@ -1217,6 +1399,13 @@ class AV:
         if isinstance(st, (ast.FunctionDef, ast.AsyncFunctionDef)):
             fr.env[st.name] = ("fn", _Closure(st, fr.env, fr.rel, fr.func))
             return
+        if isinstance(st, ast.Import):
+            # a module imported inside the function is a module object (never None)
+            for al in st.names:
+                local = al.asname or al.name.split(".")[0]
+                fr.env[local] = ("sym", al.name if al.asname else al.name.split(".")[0])
+                IMPORTED_MODULES.add(fr.env[local][1])
+            return
         if isinstance(st, (ast.Pass, ast.Import, ast.ImportFrom, ast.Assert, ast.Global, ast.Nonlocal, ast.Delete)):
             return
         for n in _assigned(st):
@@ -1247,6 +1436,11 @@ class AV:
 
     def _try(self, st: ast.Try, fr: Frame):
         """Value returned from inside the try statement (None when it completes normally)."""
+        if st.body and all(isinstance(s_, (ast.Import, ast.ImportFrom)) for s_ in st.body) and st.handlers and not st.finalbody and all(h.type is not None and norm(h.type).split(".")[-1] in ("ImportError", "ModuleNotFoundError") for h in st.handlers):
+            # an optional import: the function is read with the module available (what it does without it - a message, a
+            # fallback to another module of the same interface - is not what the rules are about)
+            r0 = self._run(list(st.body) + list(st.orelse), fr, ())
+            return None if r0 is _FALL else r0
         before = dict(fr.env)
         handler_exits: list = []
         r = self._run(list(st.body) + list(st.orelse), fr, ())
@@ -2071,6 +2265,27 @@ class AV:
                 tgt = self._name(fn.id, fr) if fn.id in self._module_env(fr.rel) else None
             if tgt is not None and tgt[0] == "fn":
                 return self._apply_closure(tgt[1], args, kwargs, fr)
+            if tgt is not None and tgt[0] == "if" and any(x[0] == "fn" for x in find_all(tgt, "fn")):
+                # a handler picked from a table of closures: the call is made in each branch
+                def call_value(t_):
+                    if t_[0] == "fn":
+                        return self._apply_closure(t_[1], args, kwargs, fr)
+                    if t_[0] == "if":
+                        return mk_if(t_[1], call_value(t_[2]), call_value(t_[3]))
+                    if t_[0] == "raise":
+                        return t_
+                    if t_ == NONE:
+                        return ("raise", "TypeError")
+                    return mk_vcall(t_, args, kwargs_t)
+
+                return call_value(tgt)
+            if tgt is not None and fn.id in fr.env and tgt[0] == "sym" and tgt[1] != fn.id and "." not in tgt[1]:
+                # a module-level function held in a local (an entry of a table of checks): called like the function itself
+                held_f = self.sm.funcs.get((fr.rel, tgt[1]))
+                if held_f is not None and fr.depth < MAX_DEPTH and self.inline(held_f) and not any(a_[0] == "spread" for a_ in args):
+                    r_ = self._apply_func(held_f, args, kwargs, fr, None)
+                    if r_ is not None:
+                        return r_
             if tgt is not None and fn.id in fr.env and tgt[0] in ("attr", "bv", "sub", "if", "call", "mcall", "vcall", "raise") or (tgt is not None and fn.id in fr.env and tgt[0] == "sym" and tgt[1] != fn.id):
                 # a callable value held in a local (bound method, element of a sequence of callables)
                 v = mk_vcall(tgt, args, kwargs_t)
@@ -2188,6 +2403,8 @@ class AV:
                 if origin and not origin.startswith("gotranx"):
                     d_ = canon_sym(origin + d_[len(d_.split(".")[0]):])
                 v = ("call", d_, args, kwargs_t)
+                if d_ == "sympy.diff" and len(args) == 2 and not kwargs_t:
+                    v = ("mcall", args[0], "diff", (args[1],), ())  # sympy.diff(e, s) is e.diff(s)
                 if d_ == "sympy.sympify" and len(args) == 1 and args[0] in (C(True), C(False)):
                     v = ("sym", "sympy.true" if args[0][1] else "sympy.false")
             else:
@@ -2268,7 +2485,7 @@ class AV:
         # {k1: v1, ...}.get(key, default) on a table of constant keys is a chain of comparisons
         if isinstance(n.func, ast.Attribute) and n.func.attr == "get" and len(args) in (1, 2) and not kwargs:
             tbl = self._ev(n.func.value, fr)
-            if tbl[0] == "dict" and tbl[1] and all(isinstance(kv, tuple) and len(kv) == 2 and kv[0][0] == "c" for kv in tbl[1]) and len(tbl[1]) <= 8:
+            if tbl[0] == "dict" and tbl[1] and all(isinstance(kv, tuple) and len(kv) == 2 and kv[0][0] == "c" for kv in tbl[1]) and len(tbl[1]) <= 16:
                 out = args[1] if len(args) == 2 else NONE
                 for k_, v_ in reversed(tbl[1]):
                     out = mk_if(mk_cmp("==", args[0], k_), v_, out)
@@ -2458,46 +2675,7 @@ class AV:
         return ("call", name, tuple(args), tuple(sorted(kw.items())))
 
     def _format(self, recv, args, kw):
-        """str.format on a skeleton: named / positional fields are substituted, {{ }} unescaped."""
-        parts = []
-        auto = 0
-        for p in s_parts(recv):
-            if p[0] != "lit":
-                parts.append(p)
-                continue
-            try:
-                fields = list(string.Formatter().parse(p[1]))
-            except ValueError:
-                return unk("format string not parsed")
-            for lit, field, spec, conv in fields:
-                if lit:
-                    parts.append(("lit", lit))
-                if field is None:
-                    continue
-                if field == "":
-                    field = str(auto)
-                    auto += 1
-                head = field.split(".")[0].split("[")[0]
-                spread_at = next((i for i, a_ in enumerate(args) if a_[0] == "spread"), None)
-                if head.isdigit() and spread_at is not None and int(head) >= spread_at:
-                    # "...".format(a, *seq): the fields from the star on are the elements of seq
-                    if spread_at != len(args) - 1:
-                        return unk("format with a starred argument that is not the last one")
-                    v = mk_sub(args[spread_at][1], C(int(head) - spread_at))
-                elif head.isdigit() and int(head) < len(args):
-                    v = args[int(head)]
-                elif head in kw:
-                    v = kw[head]
-                elif "**" in kw:
-                    v = mk_sub(kw["**"], C(head))
-                else:
-                    return unk(f"format field {field} not supplied")
-                if field != head:
-                    v = ("call", "field", (v, C(field[len(head):])), ())
-                if spec or conv:
-                    v = ("call", "format", (v, C(f"{conv or ''}:{spec or ''}")), ())
-                parts.append(("h", v))
-        return mk_s(parts)
+        return format_value(recv, args, kw)
 
     def _resolve(self, fn, fr: Frame) -> Func | None:
         sm = self.sm
@@ -2706,6 +2884,7 @@ class AV:
         for p in [x.arg for x in a.posonlyargs + a.args + a.kwonlyargs]:
             env[p] = ("sym", p)
         env.update(args or {})
+        self._closure_bindings(f, env)
         fr = Frame(f, f.rel, env, 0, 0)
         r = self._body(f.node.body, fr)
         out_env = {k: (canon_binders(x) if isinstance(x, tuple) and not k.startswith("<") else x) for k, x in fr.env.items()}
